@@ -1,6 +1,6 @@
 (* C03 — metadata becomes visible atomically and only after the files it references. *)
-From AM.Model Require Import Base Publish.
-From AM.Lemmas Require Import PublishLemmas.
+From AM.Model Require Import Base Publish Inode.
+From AM.Lemmas Require Import PublishLemmas InodeLemmas.
 Open Scope string_scope.
 Open Scope list_scope.
 
@@ -33,3 +33,47 @@ Theorem gap_is_one_point :
   forall k, live (exec (firstn k (pre ++ swap ov ++ post)) s0) = None -> k = List.length pre + 1.
 Proof. exact gap_only_between_renames. Qed.
 Print Assumptions gap_is_one_point.
+
+(* "never modified in place", at the level of inodes.  The tool publishes a file by
+   hard-linking its skel copy into the mirror, so a later write through the skel
+   name would rewrite what clients read.  For every initial tree, every set L of
+   live directories and every sequence of open-for-writing / truncate / unlink /
+   link / rename / symlink operations in which no file is opened for writing or
+   truncated while one of its names lies below L (the discipline the tool keeps by
+   unlinking before it writes; evaluated on the recorded trace of every run):
+   the content of an inode does not change for as long as it stays published. *)
+Theorem published_content_immutable :
+  forall L ops s0,
+  wf s0 = true -> disciplined L ops s0 = true ->
+  forall j k i, j <= k ->
+  (forall t, j <= t < k -> published L (iexec (firstn t ops) s0) i = true) ->
+  content (iexec (firstn k ops) s0) i = content (iexec (firstn j ops) s0) i.
+Proof. exact published_content_immutable_lemma. Qed.
+Print Assumptions published_content_immutable.
+
+(* ... hence a name that keeps its inode reads the same bytes throughout *)
+Theorem published_name_reads_same :
+  forall L ops s0,
+  wf s0 = true -> disciplined L ops s0 = true ->
+  forall j k n i, j <= k ->
+  lookup (names (iexec (firstn j ops) s0)) n = Some i ->
+  lookup (names (iexec (firstn k ops) s0)) n = Some i ->
+  (forall t, j <= t < k -> published L (iexec (firstn t ops) s0) i = true) ->
+  read (iexec (firstn k ops) s0) n = read (iexec (firstn j ops) s0) n.
+Proof. exact published_name_reads_same_lemma. Qed.
+Print Assumptions published_name_reads_same.
+
+(* the premises are met by publish / unlink / re-download, and the discipline is what carries the
+   conclusion: without the unlink the same history rewrites the published file *)
+Example unlink_before_write_is_disciplined :
+  disciplined demo_live demo_ops_good demo_init = true /\
+  read (iexec demo_ops_good demo_init) "mirror/r/dists/s/Release" =
+  read (iexec (firstn 2 demo_ops_good) demo_init) "mirror/r/dists/s/Release" /\
+  read (iexec demo_ops_good demo_init) "skel/r/dists/s/Release" <>
+  read (iexec demo_ops_good demo_init) "mirror/r/dists/s/Release".
+Proof. exact demo_good_disciplined. Qed.
+Example write_without_unlink_refuted :
+  first_bad demo_live demo_ops_bad demo_init 0 = Some 2 /\
+  read (iexec demo_ops_bad demo_init) "mirror/r/dists/s/Release" <>
+  read (iexec (firstn 2 demo_ops_bad) demo_init) "mirror/r/dists/s/Release".
+Proof. exact demo_bad_rewrites_published. Qed.
